@@ -164,6 +164,7 @@ def check(ctx):
     unit_consistency(ctx, repo)
     sibling_caps(ctx, repo)
     nonneg_targets(ctx, s, dates)
+    bound_direction(ctx, repo)
     ctx.extra_cov["denominators_discharged_by"] = discharged_by
     ctx.extra_cov["dates"] = len(dates)
     ctx.sample({"discharged_by": discharged_by})
@@ -389,7 +390,7 @@ def nonneg_targets(ctx, s, dates):
                     if key in seen_v:
                         continue
                     seen_v.add(key)
-                    ctx.violation("N", key, f"src/_gettsim/{modrel}:{line} {q.split(':')[-1]}", f"at {d} the default target {t} can become negative: {q.split(':')[-1]} computes the {kind} `{text}` with no guard ordering its operands, no bound that keeps it >= 0 and no max(., 0) clamp between it and {t}")
+                    ctx.violation("N", key, f"src/_gettsim/{modrel}:{line} {q.split(':')[-1]}", (f"at {d} the default target {t} can become negative: {q.split(':')[-1]} computes the {kind} `{text}` with no guard ordering its operands, no bound that keeps it >= 0 and no max(., 0) clamp between it and {t}" if kind != "possibly negative input" else f"at {d} the default target {t} can become negative: the input column {text} may be negative (losses) and flows through {q.split(':')[-1]} to {t} without a max(., 0) clamp"))
         # context of the reviewed transition-zone formulas
         for (q, text) in sorted(sp.used_reviewed):
             flag = REVIEWED_DIFFERENCES[(q, text)][1]
@@ -412,3 +413,42 @@ def nonneg_targets(ctx, s, dates):
 def _impl_of(dag, t):
     n = dag.nodes.get(t)
     return n.rule.qual if n is not None and n.rule is not None else t
+
+
+# --------------------------------------------------------------------------- D: caps are used as caps
+import re as _re
+
+_UPPER = _re.compile(r"(^|_)(max|maximum|höchst\w*|obergrenze|deckel)($|_)")
+_LOWER = _re.compile(r"(^|_)(min|minimum|mindest\w*|untergrenze)($|_)")
+
+
+def bound_direction(ctx, repo):
+    """D: a parameter whose key names it an upper bound (…_max, höchst…, obergrenze, deckel) limits from above:
+    it is an operand of min(), never of max(); lower bounds (…_min, mindest…) the other way round.  Only
+    parameter look-ups are considered (the key is the statute's own word), not local variable names."""
+    ctx.rule("D", "a parameter named as an upper bound (max / höchst / obergrenze / deckel) is an operand of min(), one named as a lower bound (min / mindest / untergrenze) an operand of max(), when combined with a data-dependent amount")
+    n = 0
+    for r in repo.rules:
+        for c in ast.walk(r.node):
+            if not (isinstance(c, ast.Call) and isinstance(c.func, ast.Name) and c.func.id in ("min", "max") and len(c.args) >= 2):
+                continue
+            others_data = [a for a in c.args if any(isinstance(x, ast.Name) and x.id in r.argnames and not x.id.endswith("_params") for x in ast.walk(a))]
+            for a in c.args:
+                if not (isinstance(a, ast.Subscript) and isinstance(a.slice, ast.Constant) and isinstance(a.slice.value, str)):
+                    continue
+                base = a
+                while isinstance(base, ast.Subscript):
+                    base = base.value
+                if not (isinstance(base, ast.Name) and base.id.endswith("_params")):
+                    continue
+                key = a.slice.value
+                up, lo = bool(_UPPER.search(key)), bool(_LOWER.search(key))
+                if up == lo or not [o for o in others_data if o is not a]:
+                    continue
+                n += 1
+                good = (c.func.id == "min") == up
+                ctx.ob("D", ok=good, distinct=(r.qual, ast.unparse(c)[:60]))
+                if not good:
+                    ctx.violation("D", f"{r.qual}|{ast.unparse(c)[:80]}", f"src/_gettsim/{r.mod.rel}:{c.lineno} {r.name}", f"`{ast.unparse(c)[:90]}` uses the {'upper' if up else 'lower'} bound `{key}` as a {'floor' if up else 'ceiling'}: the amount is lifted to at least the cap instead of being limited by it" if up else f"`{ast.unparse(c)[:90]}` uses the lower bound `{key}` as a ceiling: the amount is cut to at most the minimum instead of being raised to it")
+    ctx.extra_cov["D_sites"] = n
+    ctx.floor("D", 8)
